@@ -254,6 +254,21 @@ class Gen:
             i = self.fresh("i", inner)
             inner.vars.append(i)
             return ["for", "(", "var", i, "=", "0", ";", i, "<", str(r.below(4) + 1), ";", i, "++", ")"] + self.block(inner, depth + 1, True)
+        if m == 18 and self.kind == "function" and depth < self.max_depth:
+            # a local left unassigned on one edge into a join of several edges, the other edges carrying equal constants
+            name = self.fresh("v", scope)
+            self.hit("partial-assign")
+            lit = self.literal()
+            same = lit if r.chance(1, 2) else ["("] + lit + ["+", "0", ")"]
+            other = same if r.chance(3, 4) else self.literal()
+            scope.vars.append(name)
+            inner = ["if", "("] + self.cond(scope) + [")", "{", name, "="] + other + [";", "}"]
+            if r.chance(1, 2):
+                body = ["{", name, "="] + lit + [";"] + inner + ["}"]
+                out = ["var", name, ";", "if", "("] + self.cond(scope) + [")"] + body
+            else:
+                out = ["var", name, ";", "if", "("] + self.cond(scope) + [")", "{", name, "="] + lit + [";", "}", "else", "{"] + inner + ["}"]
+            return out + ["if", "(", name, "=="] + lit + [")"] + self.body_or_bare(scope, depth + 1, in_loop)
         if self.kind == "function":
             if m == 13:
                 self.hit("assert")
